@@ -33,6 +33,7 @@ import (
 	"strconv"
 	"strings"
 	"sync"
+	"syscall"
 	"testing"
 	"time"
 
@@ -231,7 +232,8 @@ var spell = map[string][]string{
 	"du": {"10s", "5m", "1h30m", "0s", "1ms"},
 	"sz": {"10MB", "1kb", "5gb", "100B"},
 	"pa": {"/", "@SCRATCH@/exist.txt", "@SCRATCH@/missing/none.txt", "@SCRATCH@/dir", "/api", "*.html", ".php"},
-	"ur": {"http://127.0.0.1:9", "https://localhost:9/base", "127.0.0.1:9", "unix:@SCRATCH@/sock", "ws://127.0.0.1:9"},
+	"ur": {"http://127.0.0.1:9", "https://localhost:9/base", "127.0.0.1:9", "unix:@SCRATCH@/sock", "ws://127.0.0.1:9",
+		"127.0.0.1:8081-8083", "localhost:65533-65535"}, // upstream port ranges, the second one up to the largest port
 	"rx": {"([", "^/(.*", "(?P<a", "*"},
 	"qs": {`"two words"`, `"a b c"`},
 	"ob": {"{"},
@@ -298,12 +300,23 @@ func spellFor(d string, cls string, pos int, rnd *rand.Rand) string {
 // and the canonical, spelling-free name of the case.
 func render(c *sgCase, rnd *rand.Rand) (text, name string) {
 	var b, n strings.Builder
+	// the block's keys: usually one loopback address; one case in six has two keys of different
+	// kinds (a setup function may judge per key: `tls { wildcard }` looks at the host name). No key
+	// can become a managed-TLS site (markQualifiedForAutoHTTPS): loopback, or a name under the
+	// private TLD .test (casket.IsInternal) - whatever `bind` the case itself writes
+	keys := "127.0.0.1:@PORT@"
+	switch rnd.Intn(12) {
+	case 0:
+		keys = "a.b.example.test:@PORT@, localhost:@PORT@"
+	case 1:
+		keys = "localhost:@PORT@, a.b.example.test:@PORT@"
+	}
 	if c.D == "basicauth" {
 		// htpasswd= names are relative to the site root: with the scratch directory as root the
 		// vocabulary reaches a well-formed, a malformed and a missing password file
-		b.WriteString("127.0.0.1:@PORT@ {\n\tbind 127.0.0.1\n\troot @SCRATCH@\n\t" + c.D)
+		b.WriteString(keys + " {\n\tbind 127.0.0.1\n\troot @SCRATCH@\n\t" + c.D)
 	} else {
-		b.WriteString("127.0.0.1:@PORT@ {\n\tbind 127.0.0.1\n\t" + c.D)
+		b.WriteString(keys + " {\n\tbind 127.0.0.1\n\t" + c.D)
 	}
 	n.WriteString(c.D)
 	extra := 0
@@ -481,6 +494,9 @@ func TestC11Child(t *testing.T) {
 	os.Setenv("PATH", filepath.Join(childScratch, "emptybin"))
 	os.Setenv("HOME", childScratch)
 	os.Setenv("CASKETPATH", filepath.Join(childScratch, "casketpath"))
+	// a setup function that loops while allocating must end as a dead worker, not take the machine along
+	lim := syscall.Rlimit{Cur: 3 << 30, Max: 3 << 30}
+	syscall.Setrlimit(syscall.RLIMIT_AS, &lim)
 	hx.ServeChild(t, childTest, handle)
 }
 
@@ -588,7 +604,7 @@ func TestC11(t *testing.T) {
 			return
 		}
 		cc := *c
-		cc.Text, cc.Start = j.Text, j.Start || j.StartNo
+		cc.Text, cc.Start = j.Text, j.Start || j.Start
 		var obs interface{} = st
 		if st == "" {
 			obs = o
